@@ -5,10 +5,13 @@ the statement is left as written.
 
 * ``a, b = x, y``  ->  ``a = x; b = y`` when no earlier target is read by a later right-hand side and the later right-hand
   sides cannot observe an earlier attribute target (no call in them);
-* ``list()`` / ``dict()`` / ``tuple()`` without arguments  ->  ``[]`` / ``{}`` / ``()``;
+* ``list()`` / ``dict()`` / ``tuple()`` without arguments  ->  ``[]`` / ``{}`` / ``()``; ``x[slice(a, b, c)]`` -> ``x[a:b:c]``;
+  ``x[0:n]`` -> ``x[:n]``;
 * ``xs += [e]``  ->  ``xs.append(e)`` for a local that is only ever bound to list displays in the function;
 * ``d.update(k=v, ...)`` (keywords only, statement)  ->  ``d['k'] = v; ...`` for a local only ever bound to dict displays;
 * ``x = y = v`` with a constant v  ->  ``x = v; y = v``;
+* ``x = A if C else B``  ->  ``if C: x = A`` / ``else: x = B``;
+* ``while True: if not C: break; BODY``  ->  ``while C: BODY`` (no else clause);
 * ``for c, x in enumerate(Y, start=K)`` (K a non-zero int constant, c not assigned in the body)  ->
   ``c = K - 1`` / ``for x in Y: c += 1; ...`` - the running count of the elements seen so far.  (After a loop over an empty
   Y the counter is K - 1 here and unbound in the source: the two differ only where the source raises NameError.)
@@ -62,6 +65,28 @@ def _display_only(fn: ast.AST, name: str, kinds) -> bool:
 
 
 class _Displays(ast.NodeTransformer):
+    def visit_Subscript(self, node):
+        node = self.generic_visit(node)
+        sl = node.slice
+        # x[slice(a, b, c)]  ->  x[a:b:c]
+        if isinstance(sl, ast.Call) and isinstance(sl.func, ast.Name) and sl.func.id == "slice" and not sl.keywords and \
+                1 <= len(sl.args) <= 3 and not any(isinstance(a, ast.Starred) for a in sl.args):
+            a = list(sl.args)
+            none = lambda e: None if isinstance(e, ast.Constant) and e.value is None else e
+            if len(a) == 1:
+                lo, up, st = None, none(a[0]), None
+            elif len(a) == 2:
+                lo, up, st = none(a[0]), none(a[1]), None
+            else:
+                lo, up, st = none(a[0]), none(a[1]), none(a[2])
+            sl = ast.copy_location(ast.Slice(lower=lo, upper=up, step=st), sl)
+            node.slice = sl
+        # x[0:n]  ->  x[:n]
+        if isinstance(sl, ast.Slice) and isinstance(sl.lower, ast.Constant) and type(sl.lower.value) is int and \
+                sl.lower.value == 0 and (sl.step is None or (isinstance(sl.step, ast.Constant) and sl.step.value in (None, 1))):
+            sl.lower = None
+        return node
+
     def visit_Call(self, node):
         node = self.generic_visit(node)
         if isinstance(node.func, ast.Name) and not node.args and not node.keywords:
@@ -115,6 +140,19 @@ def _rewrite_stmt(fn, s: ast.stmt) -> List[ast.stmt]:
             return [ast.copy_location(ast.Assign(
                 targets=[ast.Subscript(value=ast.Name(id=d, ctx=ast.Load()), slice=ast.Constant(value=k.arg),
                                        ctx=ast.Store())], value=k.value), s) for k in s.value.keywords]
+    # while True: if not C: break; BODY   ->   while C: BODY
+    if isinstance(s, ast.While) and isinstance(s.test, ast.Constant) and bool(s.test.value) and not s.orelse and s.body and \
+            isinstance(s.body[0], ast.If) and not s.body[0].orelse and len(s.body[0].body) == 1 and \
+            isinstance(s.body[0].body[0], ast.Break) and len(s.body) > 1:
+        t = s.body[0].test
+        cond = t.operand if isinstance(t, ast.UnaryOp) and isinstance(t.op, ast.Not) else ast.UnaryOp(op=ast.Not(), operand=t)
+        return [ast.copy_location(ast.While(test=cond, body=list(s.body[1:]), orelse=[]), s)]
+    # x = A if C else B
+    if IFEXP_AS_STATEMENT and isinstance(s, ast.Assign) and len(s.targets) == 1 and isinstance(s.targets[0], (ast.Name, ast.Attribute)) \
+            and not _has_call(s.targets[0]) and isinstance(s.value, ast.IfExp):
+        a = ast.copy_location(ast.Assign(targets=[copy.deepcopy(s.targets[0])], value=s.value.body), s)
+        b = ast.copy_location(ast.Assign(targets=[copy.deepcopy(s.targets[0])], value=s.value.orelse), s)
+        return [ast.copy_location(ast.If(test=s.value.test, body=_rewrite_stmt(fn, a), orelse=_rewrite_stmt(fn, b)), s)]
     # for c, x in enumerate(Y, start=K)
     if isinstance(s, ast.For) and isinstance(s.iter, ast.Call) and isinstance(s.iter.func, ast.Name) and \
             s.iter.func.id == "enumerate" and isinstance(s.target, ast.Tuple) and len(s.target.elts) == 2 and \
@@ -189,6 +227,7 @@ def _rewrite_stmt(fn, s: ast.stmt) -> List[ast.stmt]:
 
 
 COMPREHENSIONS_AS_LOOPS = True
+IFEXP_AS_STATEMENT = True
 
 
 def _block(fn, stmts: List[ast.stmt]) -> List[ast.stmt]:
